@@ -98,7 +98,16 @@ func checkC16(ctx *Ctx, r *Report) {
 				paths++
 				n, kind := countIn(is.Body.List)
 				cons := fmt.Sprintf("structObjectToBuilder path #%d (%s)", i+1, exprString(is.Cond))
+				// the disposition is a statement of the path itself, not of a further condition inside it
+				top := 0
+				for _, st := range is.Body.List {
+					if isDisposition(st) != "" {
+						top++
+					}
+				}
 				switch {
+				case n == 1 && top == 0:
+					r.Bad("derive/one-disposition", cons, is.Pos(), "the path ends in `continue` for every field satisfying "+exprString(is.Cond)+" but appends its "+kind+" only under a further condition: the other fields of the path get neither an option nor a constructor assignment")
 				case n == 1:
 					r.OK("derive/one-disposition", cons, is.Pos(), "the path appends exactly one "+kind)
 				case n == 0 && isConstRefSkip(info, is.Cond):
